@@ -509,13 +509,13 @@ def run(ctx):
     os.chdir(workdir)
     try:
         ctx.hyp(sweeper.run_case, gen_cases(), key=case_key, salt=1,
-                max_examples=ctx.scale(16, 1200), shrink_budget=40)
+                max_examples=ctx.scale(16, 240), shrink_budget=40)
         ctx.hyp(sweeper.run_case, tuned_cases(), key=case_key, salt=4,
-                max_examples=ctx.scale(64, 3200), shrink_budget=40)
+                max_examples=ctx.scale(64, 960), shrink_budget=40)
         ctx.hyp(sweeper.run_case, src_cases(), key=case_key, salt=2,
-                max_examples=ctx.scale(32, 480), shrink_budget=40)
+                max_examples=ctx.scale(32, 160), shrink_budget=40)
         ctx.hyp(sweeper.run_case, psy_cases(), key=case_key, salt=3,
-                max_examples=ctx.scale(32, 1600), shrink_budget=40)
+                max_examples=ctx.scale(32, 480), shrink_budget=40)
     finally:
         os.chdir(cwd)
         shutil.rmtree(workdir, ignore_errors=True)
